@@ -630,6 +630,7 @@ func (fr *Frame) step(b *ssa.BasicBlock, ins ssa.Instruction, st *State, reach s
 		vc.writeCell(st, kc, ref, bvConst(0, 64))
 		fr.bind(x, Val{S: ref})
 	case *ssa.MapUpdate:
+		fr.guardContents(x.Map, st, reach, x.Pos())
 		fr.mapUpdate(b, x, st, reach)
 	case *ssa.Lookup:
 		fr.lookup(b, x, st, reach)
